@@ -357,6 +357,13 @@ def run(tier):
         if ty == "expr::BinaryExpr":
             fl = flatten_sites(P, key, ty)
             bad = [x for x in fl if x[1] != "left"]
+            # the text is parsed again under the nesting limit of the line parser: a chain a+b+c+... must not arrive one level deeper
+            # per term, or a macro argument that is fine when written directly is refused (left operands of the same operator go
+            # without parentheses of their own)
+            leftflat = any(x[1] == "left" for x in fl)
+            rep.ob("C09.print|%s|chain" % ty, leftflat,
+                   "a chain of one operator is re-rendered flat on its left side: its nesting does not grow with its length" if leftflat else
+                   "every binary expression is re-rendered inside parentheses of its own, so a chain of n operators reaches the parser nested n deep: beyond the parser's nesting limit (64) a macro argument like 1+2+...+70 is refused although the same expression written directly assembles")
             rep.ob("C09.print|%s|nested" % ty, not bad,
                    "nested binary expressions are printed through their own Display (with their parentheses)%s" % (" or flattened on the left side only" if fl else "") if not bad else
                    "%s prints a nested binary expression taken from the %s operand without its parentheses: `m 10-(3-1)` re-parses as 10-3-1" % (bad[0][0].split("::")[-1], "right" if bad[0][1] == "right" else "left or right"),
